@@ -82,6 +82,11 @@ static void setup_queue(int depth, int msg_len)
 	arena = malloc(len + 2 * GUARD);
 	memset(arena, 0xA5, len + 2 * GUARD);
 	store = arena + GUARD;
+	{
+		static unsigned inits;
+		if (inits++ & 1)
+			memset(&q, 0xA5, sizeof(q)); /* a used or junk-filled descriptor */
+	}
 	messageq_init(&q, store, len, (size_t)M);
 	for (int i = 0; i < MAXD; i++)
 		slot[i].state = S_FREE;
